@@ -408,6 +408,10 @@ class Pool():
                     if not flag:
                         if worker.id not in self._closed: # if a worker died while enqueueing, its death has already been handled but we will (possibly) end up here
                             handle_death(worker)
+                    elif worker.id in self._closed:
+                        # the worker died after sending this result and its death has already been handled (while
+                        # enqueueing): its pending inputs have already been dropped or scheduled to be retried
+                        logger.debug('Ignoring a result from a worker which has already been closed: {}', worker)
                     else:
                         handle_new_result(worker, result)
 
